@@ -594,21 +594,33 @@ type c04Case struct {
 	Extra string `json:"redundant"`
 }
 
-func c04Script(expr string) string {
+// c04Contexts: where the printed expression stands. The expected value is always taken from context 0 with
+// the fully parenthesised printing; the other contexts put a list element (a variable) and a comma before the
+// expression, which sends the parser through its rewind-and-reparse paths (destructuring / argument lists).
+var c04Contexts = []struct{ Name, Tmpl string }{
+	{"argument", "%s"},
+	{"array-element-after-variable", "[$a, %s][1]"},
+	{"call-argument-after-variable", "__second($a, %s)"},
+	{"array-first-element", "[%s, $a][0]"},
+}
+
+func c04Script(expr string, ctx int) string {
 	var sb strings.Builder
-	sb.WriteString("<?php\n")
+	sb.WriteString("<?php\nfunction __second($x, $y) { return $y; }\n")
 	var names []string
 	for _, v := range xVars {
 		fmt.Fprintf(&sb, "$%s = %s;\n", v.Name, v.Lit)
 		names = append(names, "$"+v.Name)
 	}
-	fmt.Fprintf(&sb, "try { __obs(\"v\", %s); } catch (Throwable $e) { __obs(\"!v\", get_class($e)); }\n", expr)
+	fmt.Fprintf(&sb, "try { __obs(\"v\", %s); } catch (Throwable $e) { __obs(\"!v\", get_class($e)); }\n", fmt.Sprintf(c04Contexts[ctx].Tmpl, expr))
 	fmt.Fprintf(&sb, "__obs(\"vars\", [%s]);\n", strings.Join(names, ", "))
 	return sb.String()
 }
 
-func c04Run(pool *sb.Pool, expr string) (string, *sb.Rep) {
-	rep := pool.Exec(&sb.Req{Kind: "script", Src: c04Script(expr), Tmpl: true, Run: true})
+func c04Run(pool *sb.Pool, expr string) (string, *sb.Rep) { return c04RunCtx(pool, expr, 0) }
+
+func c04RunCtx(pool *sb.Pool, expr string, ctx int) (string, *sb.Rep) {
+	rep := pool.Exec(&sb.Req{Kind: "script", Src: c04Script(expr, ctx), Tmpl: true, Run: true})
 	return rep.Outcome + "|" + strings.Join(rep.Obs, "|"), &rep
 }
 
@@ -652,7 +664,63 @@ func c04Judge(pool *sb.Pool, rec *sb.Rec, tree *xNode, extra map[*xNode]bool) *f
 			return f
 		}
 	}
+	// the same printings after "<variable>," in a list: the value may not depend on where the expression stands
+	ctx := 1 + len(minS)%(len(c04Contexts)-1)
+	if c04OpenAssign(minS) {
+		// "$a, $b = f()" is the language's documented multiple assignment (docs/functions.md), so an
+		// unparenthesised assignment after "<variable>," is not the same expression any more: such trees
+		// only stand first in the list
+		ctx = 3
+	}
+	for _, pr := range []struct{ which, s string }{{"minimal", minS}, {"tight", tightRe.ReplaceAllString(minS, " $1$2")}} {
+		if pr.which == "tight" && pr.s == minS {
+			continue
+		}
+		rec.Label("context."+c04Contexts[ctx].Name+"."+pr.which, pr.s)
+		if got, _ := c04RunCtx(pool, pr.s, ctx); got != full {
+			f := mk(pr.which+" printing in context "+c04Contexts[ctx].Name, fmt.Sprintf(c04Contexts[ctx].Tmpl, pr.s), got)
+			f.Key = "cell:context:" + c04Contexts[ctx].Name + ":" + pr.which
+			return f
+		}
+	}
 	return nil
+}
+
+// c04OpenAssign: the printing has an assignment operator outside every parenthesis.
+func c04OpenAssign(s string) bool {
+	depth := 0
+	inStr := false
+	for i := 0; i < len(s); i++ {
+		switch c := s[i]; {
+		case c == '"':
+			inStr = !inStr
+		case inStr:
+		case c == '(':
+			depth++
+		case c == ')':
+			depth--
+		case c == '=' && depth == 0:
+			prev, next := byte(' '), byte(' ')
+			if i > 0 {
+				prev = s[i-1]
+			}
+			if i+1 < len(s) {
+				next = s[i+1]
+			}
+			if next == '=' || next == '>' {
+				// ==, ===, =>: skip the run
+				for i+1 < len(s) && s[i+1] == '=' {
+					i++
+				}
+				continue
+			}
+			if prev == '!' || prev == '<' || prev == '>' || prev == '=' {
+				continue
+			}
+			return true
+		}
+	}
+	return false
 }
 
 var tightRe = regexp.MustCompile(` ([+-]) (\d)`)
